@@ -199,6 +199,15 @@ func (se *specEnv) ident(name string) sval {
 	if v, ok := se.vars[name]; ok {
 		return v
 	}
+	// captured variable of a closure
+	for _, fv := range fr.fn.FreeVars {
+		if fv.Name() == name {
+			a := fr.addrOf(fv)
+			if a.kind == aCell {
+				return sval{t: se.st.get(a.comp), typ: a.elem, sort: sortOf(a.elem), addr: &a}
+			}
+		}
+	}
 	// package-level constant or variable
 	if o := fr.x.e.tp.Scope().Lookup(name); o != nil {
 		switch ob := o.(type) {
@@ -312,6 +321,9 @@ func (se *specEnv) sel(x sval, name string) sval {
 		return sval{t: ref, typ: ft, sort: "Int", addr: &a}
 	}
 	v := fr.selectComp(a)
+	if fr.x.e.cf.NonNil[comp] {
+		fr.c().fact(not(eq(v, zeroOf(ft))))
+	}
 	fr.loadFacts(ft, v) // machine range / slice well-formedness / allocation watermark are type invariants
 	return sval{t: v, typ: ft, sort: sortOf(ft), addr: &a}
 }
